@@ -218,7 +218,9 @@ def setter_from(F, R, b, name, setter_pat, want_fields, arg_idx=1, root=None, ke
                     continue
                 p_ = op_place(t_['discr'])
                 for (xb, xs, kind, x) in (b.whole_defs(p_['l']) if p_ else []):
-                    if kind == 'assign' and x['rv']['k'] == 'discr' and (x['rv'].get('ty') or '').startswith('std::option::Option<') and want_fields[-1] in place_fields(x['rv']['place']):
+                    if kind == 'assign' and x['rv']['k'] == 'discr' and (x['rv'].get('ty') or '').startswith('std::option::Option<') and \
+                            (want_fields[-1] in place_fields(x['rv']['place']) or want_fields[-1] in (apath(b, {'cp': x['rv']['place']}) or ())
+                             or want_fields[-1] in __import__('c05').origin_field_names(F, b, {'cp': x['rv']['place']}, re.compile(TRANSPARENT_CALLS.pattern[:-2] + r'|map|copied|cloned)$'))):   # (or a copy of it: the Option handed to a spliced helper)
                         none_t = [tb for v_, tb in t_['targets'] if v_ == 0] or [t_['otherwise']]
                         some_t = [tb for v_, tb in t_['targets'] if v_ == 1] or [t_['otherwise']]
                         if none_t[0] != some_t[0]:
